@@ -5,6 +5,7 @@ import (
 	"hash/fnv"
 	"math/rand"
 	"os"
+	"runtime"
 	"strings"
 	"sync"
 	"sync/atomic"
@@ -273,6 +274,34 @@ func RunWorkload(seed int64, cfg WorkCfg, onPhase func(string)) *History {
 					atomic.StoreInt32(&failLeft, 1)
 					mode.Store("fail-n")
 					send(0, mk(kind, "retry-once:"+tb))
+					mode.Store("ok")
+					// the same with company: while the request is handed in again, twelve further requests of its kind are
+					// parsed and handed in one after the other by two more clients
+					if onPhase != nil {
+						onPhase("retry-in-company:" + tb)
+					}
+					itA := mk(kind, "retry-in-company:"+tb)
+					comp := make([]*Item, 12)
+					for j := range comp {
+						comp[j] = mk(kind, "retry-in-company:"+tb)
+					}
+					atomic.StoreInt32(&failLeft, int32(cfg.Writer.RetryAttempts-1))
+					mode.Store("fail-n")
+					// on two cores: whatever the requests share per core (pools, caches) is shared by all of them
+					prevProcs := runtime.GOMAXPROCS(2)
+					var cw sync.WaitGroup
+					cw.Add(3)
+					go func() { defer cw.Done(); send(0, itA) }()
+					for k := 0; k < 2; k++ {
+						go func(k int) {
+							defer cw.Done()
+							for _, it := range comp[k*6 : k*6+6] {
+								send(1+k, it)
+							}
+						}(k)
+					}
+					cw.Wait()
+					runtime.GOMAXPROCS(prevProcs)
 					mode.Store("ok")
 				}
 			}
